@@ -17,25 +17,31 @@ class CFG:
             d[l].append(i)
         return d
 
+    def runs(self):
+        """[(lhs, [production indices])]: maximal runs of consecutive productions with the same head"""
+        out = []
+        for i, (l, b, k, a) in enumerate(self.prods):
+            if out and out[-1][0] == l:
+                out[-1][1].append(i)
+            else:
+                out.append((l, [i]))
+        return out
+
+    def split_declared(self):
+        return len(self.runs()) > len(set(l for (l, _, _, _) in self.prods))
+
     def text(self, pkg_h, pure=False):
         """pure=True: actions build []interface{}{p, kids...} values without any helper package (no shared state)"""
         out = ['<< import ( "%s" ; "%s/token" ) ; var _ = token.EOF ; var _ = h.Reset >>' % (pkg_h, pkg_h[:-2]), ""]
         if pure:
             out = []
-        d = self.by_lhs()
-        order = []
-        for (l, b, k, a) in self.prods:
-            if l not in order:
-                order.append(l)
-        # productions must be emitted grouped by lhs in order of first appearance, alternatives in index order:
-        # the generator builds prods that way (checked here)
-        flat = []
-        for l in order:
+        # one rule per RUN of consecutive productions with the same head, in the order of self.prods: gocc numbers the productions in
+        # file order (a nonterminal may be declared in several non-adjacent rules: its alternatives are then not adjacent)
+        for (l, idxs) in self.runs():
             alts = []
-            for i in d[l]:
+            for i in idxs:
                 (_, b, k, a) = self.prods[i]
-                flat.append(i)
-                pnum = len(flat)  # production index in gocc's table (0 is S')
+                pnum = i + 1  # production index in gocc's table (0 is S')
                 if k == "empty":
                     s = "empty"
                 elif k == "error":
@@ -57,7 +63,6 @@ class CFG:
                         s += " << h.N(%d%s) >>" % (pnum, "".join(", " + x for x in args))
                 alts.append(s)
             out.append("%s : %s ;" % (l, "\n  | ".join(alts)))
-        assert flat == list(range(len(self.prods))), "prods not grouped by lhs"
         return "\n".join(out) + "\n"
 
     def has_action(self, i):
@@ -116,7 +121,27 @@ def gen_cfg(rng, with_error=False, max_nt=5, allow_conflicts=True):
     g = CFG(nts, terms, prods)
     if rng.random() < 0.45:
         g = add_optionals(g, rng)
+    if rng.random() < 0.3:
+        g = split_declarations(g, rng)
     return g
+
+
+def split_declarations(g, rng):
+    """declares some nonterminal in two non-adjacent rules: moves a non-empty proper suffix of its alternatives behind the block of a later
+    nonterminal (gocc accepts this and numbers the productions in file order)"""
+    runs = g.runs()
+    for _ in range(rng.choice([1, 1, 2])):
+        cands = [ri for ri, (l, idxs) in enumerate(runs) if len(idxs) >= 2 and ri < len(runs) - 1]
+        if not cands:
+            break
+        ri = rng.choice(cands)
+        (l, idxs) = runs[ri]
+        cut = rng.randint(1, len(idxs) - 1)
+        dest = rng.randint(ri + 1, len(runs) - 1)
+        runs[ri] = (l, idxs[:cut])
+        runs.insert(dest + 1, (l, idxs[cut:]))
+    prods = [g.prods[i] for (_, idxs) in runs for i in idxs]
+    return CFG(list(g.nts), list(g.terms), prods)
 
 
 def add_optionals(g, rng):
